@@ -96,6 +96,30 @@ class Raise:
         self.exc = exc
 
 
+class CMFactory:
+    """A function decorated with contextlib.contextmanager: calling it makes a GenCM."""
+
+    def __init__(self, closure):
+        self.closure = closure
+
+
+class GenCM:
+    """The context manager made by calling a @contextmanager generator function (not started yet)."""
+
+    def __init__(self, closure, args, kwargs):
+        self.closure = closure
+        self.args = list(args)
+        self.kwargs = dict(kwargs)
+
+
+def contextmanager_wrapped(f):
+    """the generator function behind a contextlib.contextmanager helper, else None"""
+    w = getattr(f, "__wrapped__", None)
+    if isinstance(f, types.FunctionType) and isinstance(w, types.FunctionType) and inspect.isgeneratorfunction(w) and f.__code__.co_filename.endswith("contextlib.py"):
+        return w
+    return None
+
+
 class SuperProxy:
     """super() inside a method of ``owner`` with receiver ``obj``."""
 
@@ -727,6 +751,14 @@ class Engine:
         if isinstance(f, Model):
             yield from f.fn(self, st, list(args), dict(kwargs))
             return
+        if isinstance(f, CMFactory):
+            yield st, GenCM(f.closure, args, kwargs)
+            return
+        if isinstance(f, types.FunctionType) and id(f) not in self.models and contextmanager_wrapped(f) is not None:
+            cl = self.closure_of_live(contextmanager_wrapped(f))
+            if cl is not None and S.is_repo_file(cl.src.path):
+                yield st, GenCM(cl, args, kwargs)
+                return
         if isinstance(f, Closure):
             yield from self.call_closure(f, args, kwargs, st, line)
             return
@@ -1456,9 +1488,53 @@ class Engine:
             if isinstance(cm, SV) and cm.hint is not None and (cm.hint, "__enter__") in self.method_models:
                 yield from self._with_protocol(node, item, cm, st1, fr)
                 continue
+            if isinstance(cm, GenCM):
+                yield from self._with_generator(node, item, cm, st1, fr)
+                continue
             if self.with_hook is None:
                 raise Unsupported(f"with statement at line {node.lineno} without a manager model")
             yield from self.with_hook(self, node, item, cm, st1, fr)
+
+    def _with_generator(self, node, item, cm, st, fr):
+        """``with <@contextmanager generator>():``  the generator function's real body is executed; its ``yield`` runs
+        the with-block (in the frame of the with statement).  A block that ends normally resumes the generator after
+        the yield, a block that raises has its exception thrown in at the yield; when the generator then ends normally
+        the exception is suppressed, as contextlib does.  return/break/continue out of the block are not modelled."""
+        saved = self.yield_hook
+
+        def hook(eng, ynode, s, gfr):
+            vals = [(s, None)] if ynode.value is None else list(eng.eval(ynode.value, s, gfr))
+            outs = []
+            for s1, yv in vals:
+                if isinstance(yv, Raise):
+                    outs.append((s1, yv))
+                    continue
+                if item.optional_vars is not None:
+                    rs = list(eng.assign(item.optional_vars, yv, s1, fr, node.lineno))
+                    if len(rs) != 1 or rs[0][1] is not None:
+                        raise Unsupported("with ... as <complex target>")
+                    s1 = rs[0][0]
+                eng.yield_hook = saved
+                try:
+                    block = list(eng.exec_block(node.body, s1, fr))
+                finally:
+                    eng.yield_hook = hook
+                for s2, ex in block:
+                    if ex is None:
+                        outs.append((s2, None))
+                    elif ex[0] == "raise":
+                        outs.append((s2, Raise(ex[1])))
+                    else:
+                        raise Unsupported(f"{ex[0]} out of a generator-managed with block (line {node.lineno})")
+            yield from outs
+
+        self.yield_hook = hook
+        try:
+            results = list(self.call_closure(cm.closure, cm.args, cm.kwargs, st, node.lineno))
+        finally:
+            self.yield_hook = saved
+        for s3, r in results:
+            yield s3, (("raise", r.exc) if isinstance(r, Raise) else None)
 
     def _with_protocol(self, node, item, cm, st, fr):
         """The context-manager protocol for managers whose __enter__/__exit__ are modelled (and never
